@@ -222,6 +222,15 @@ theorem hook_gets_normalized_args :
     Generated.hookArgsStill = "real_render_args" ∧ Generated.animateArgs = "real_render_args" ∧
     Generated.hookArgsAnim = "render_args" := by decide
 
+/-- translator tie: the only module-level aliases of `sys.stdout` in the package (names bound at import time, which keep
+    pointing at the OLD stream when an application re-binds `sys.stdout`) are the two `_stdout_write`, and the only
+    functions that write through them are the two explicit `clear()` class methods — no part of `draw()`'s interrupt
+    handling or clean-up (`_handle_interrupted_draw`, the `finally` blocks) does: what they print reaches the stream
+    that is being drawn to. (AST scan of the imported package, regenerated every run.) -/
+theorem no_stdout_alias_in_cleanup :
+    Generated.stdoutAliases = ["image.iterm2._stdout_write", "image.kitty._stdout_write"] ∧
+    Generated.stdoutAliasUsers = ["image.iterm2.ITerm2Image.clear", "image.kitty.KittyImage.clear"] := by decide
+
 /-- a single `ST` already does (the second one is for Konsole, says the code) -/
 theorem st_recovers (s : PState) : pfeed s (itemChars (.tok .st)) = .ground := by
   cases s <;> decide
